@@ -109,6 +109,66 @@ async fn run_case(dir: &std::path::Path, case: &Value) -> Vec<Value> {
             ev.push(json!({"ev": "fnonreg", "target": target, "refused": r.is_err(),
                            "panic": r.as_ref().err().map(|e| e.starts_with("panic")).unwrap_or(false)}));
         }
+        "concurrent" => {
+            // clones of one ChunkedReadFile streamed concurrently on several OS threads: every chunk
+            // must still be exactly the file bytes at its offset (a shared file cursor would show)
+            let size = case["size"].as_u64().unwrap_or(300_000);
+            let threads = case["threads"].as_u64().unwrap_or(4);
+            let reps = case["reps"].as_u64().unwrap_or(40);
+            drop(make_file(&p, size, (1_000_000_000, 7)));
+            let crf = std::sync::Arc::new(Crf::new(std::fs::File::open(&p).unwrap(), http::HeaderMap::new()).unwrap());
+            let mut hs = Vec::new();
+            for t in 0..threads {
+                let c = crf.clone();
+                hs.push(std::thread::spawn(move || {
+                    let rt = tokio::runtime::Builder::new_multi_thread().worker_threads(1).build().unwrap();
+                    rt.block_on(async move {
+                        tokio::spawn(async move {
+                            let (mut bad, mut chunks, mut short) = (0u64, 0u64, 0u64);
+                            let waker = std::task::Waker::from(std::sync::Arc::new(crate::serve_eng::FlagWaker(
+                                std::sync::atomic::AtomicBool::new(false))));
+                            for r in 0..reps {
+                                let a = ((t * 7919 + r * 104_729) % size.max(1)).min(size);
+                                let b = (a + 1 + (r * 50_021) % 150_000).min(size);
+                                let mut st = c.get_range(a..b);
+                                let mut pos = a;
+                                loop {
+                                    let x = std::future::poll_fn(|_| {
+                                        let mut cx = std::task::Context::from_waker(&waker);
+                                        Poll::Ready(st.as_mut().poll_next(&mut cx))
+                                    })
+                                    .await;
+                                    match x {
+                                        Poll::Ready(Some(Ok(mut d))) => {
+                                            let mut v = vec![0u8; d.remaining()];
+                                            d.copy_to_slice(&mut v);
+                                            chunks += 1;
+                                            if v.iter().enumerate().any(|(i, &y)| y != ((pos + i as u64) % 251) as u8) {
+                                                bad += 1;
+                                            }
+                                            pos += v.len() as u64;
+                                        }
+                                        Poll::Ready(Some(Err(_))) => { short += 1; break; }
+                                        Poll::Ready(None) => { if pos != b { short += 1; } break; }
+                                        Poll::Pending => {}
+                                    }
+                                }
+                            }
+                            (bad, chunks, short)
+                        })
+                        .await
+                        .unwrap_or((0, 0, 1))
+                    })
+                }));
+            }
+            let (mut bad, mut chunks, mut short) = (0u64, 0u64, 0u64);
+            for h in hs {
+                let (x, y, z) = h.join().unwrap_or((0, 0, 1));
+                bad += x; chunks += y; short += z;
+            }
+            ev.push(json!({"ev": "fconc", "threads": threads, "streams": threads * reps, "chunks": chunks,
+                           "bad_chunks": bad, "short_or_failed": short}));
+        }
         "echo" => {
             // two-request history over a real file (C14): validators copied verbatim from the first
             // response into the second request
